@@ -90,6 +90,9 @@ pub fn diff_class(d: &str) -> String {
     let w: String = d.split(|c: char| c == ' ' || c == ':').next().unwrap_or("").to_string();
     match w.as_str() {
         "table" => {
+            if d.starts_with("table list") {
+                return "table-list".into();
+            }
             if d.contains("rows") && d.contains(" vs ") && !d.contains("row ") {
                 "table-rowcount".into()
             } else if d.contains("column") {
